@@ -73,7 +73,8 @@ def rule_d2(ctx, facts):
     for u in users:
         for c in u.calls:
             if c.resolved in acq_ids and not u.is_cleanup(c.b):
-                rels = {x.point for x in u.calls if x.resolved in rel_ids}
+                from .rules_c18 import root_release_points
+                rels = root_release_points(facts, u, rel_ids)
                 inside = reach(u, after(u, c.point, label="ret"), avoid=rels)
                 leaks = [rp for rp in return_points(u) if rp in inside]
                 nested = [x for x in u.calls if x.point in inside and (x.resolved in acq_ids or x in lock_calls(u))]
@@ -325,6 +326,13 @@ def sets_bit(body, cas, bit):
         return False
     ev0 = evaluator(body)
     exp = ev0.operand(cas.args[1])
+    # the new value may pass through named locals (`let with_waiter = state | WAITER;`)
+    seen = set()
+    while l not in seen:
+        seen.add(l)
+        ds = [d for d in body.defs.get(l, []) if d[1] in ("assign", "call", "arg")]
+        if len(ds) == 1 and ds[0][1] == "assign" and "use" in ds[0][2]["rv"] and op_local(ds[0][2]["rv"]["use"]) is not None:
+            l = op_local(ds[0][2]["rv"]["use"])
     for pt, kind, data in body.defs.get(l, []):
         if kind == "assign" and data["rv"].get("bin", "").replace("WithOverflow", "") in ("BitOr", "Add"):
             ops = (data["rv"]["a"], data["rv"]["b"])
@@ -478,7 +486,7 @@ def rule_d6(ctx, facts, rule="D6"):
                 continue
             x, exp, oke = won
             # s had no WRITER / WAITER bit
-            masked = False
+            cover = 0
             for blk in range(len(b.blocks)):
                 cd = cond_of(b, blk)
                 if cd and cd["kind"] == "cmp" and cd["op"] in ("Ne", "Eq"):
@@ -490,10 +498,12 @@ def rule_d6(ctx, facts, rule="D6"):
                         for pt, kind, data in b.defs.get(al, []):
                             if kind == "assign" and data["rv"].get("bin") == "BitAnd":
                                 fs = [ev.operand(data["rv"]["a"]), ev.operand(data["rv"]["b"])]
-                                if any(f is not TOP and f == exp for f in fs) and any(f is not TOP and f.is_const() and int(f.c) == (WRITER | WAITER) for f in fs):
+                                ms = [int(f.c) for f in fs if f is not TOP and f.is_const() and f.c.denominator == 1]
+                                if any(f is not TOP and f == exp for f in fs) and ms:
                                     free_edge = cd["false"] if cd["op"] == "Ne" else cd["true"]
                                     if dominated_by_edge(b, x.point, [(blk, free_edge)]):
-                                        masked = True
+                                        cover |= ms[0]      # bits shown clear on the way to the CAS, by one test or several
+            masked = cover & (WRITER | WAITER) == (WRITER | WAITER)
             # the tree is entered at a root loaded under the read lock: a root read before the CAS may have been rotated away or removed
             stale_root = None
             rl = op_root(c.args[0]) if c.args else None
